@@ -408,6 +408,9 @@ class Interp:
             b = st.load(args[0]); st.ev(kind='FREE', loc=('blk', b.root[1])); return cont(st, Opaque('unit'))
         if n.endswith('process::abort') or n == 'abort': st.ev(kind='ABORT'); raise PathEnd('abort')
         if n.endswith('mem::forget'): return cont(st, Opaque('unit'))
+        if n.endswith('ManuallyDrop::drop'):
+            ty = s.generic_arg(getattr(s, '_raw_callee', ''))
+            return s.drop_value(st, ty, args[0], 0, lambda st2: cont(st2, Opaque('unit')))
         if n.endswith('drop_in_place'):
             p0 = args[0]
             if isinstance(p0, Ptr) and p0.root[0] == 'H' and p0.path in ((), (1,)):
